@@ -143,7 +143,7 @@ def d16_of(d):
 _COUNTED = {}
 
 
-def build_frame(pose_list, frame_idx, n_nodes, scores=None, vid=None, as_pred=None, extra_pred=None):
+def build_frame(pose_list, frame_idx, n_nodes, scores=None, vid=None, as_pred=None, extra_pred=None, stale=False):
     """LabeledFrame of user instances (scores None) or predicted instances (integer scores / 64)."""
     import sleap_io as sio
 
@@ -157,6 +157,14 @@ def build_frame(pose_list, frame_idx, n_nodes, scores=None, vid=None, as_pred=No
             insts.append(sio.Instance.from_numpy(pts, skeleton=sk))
         else:
             insts.append(shim.predicted_instance(pts, score=scores[k] / 64.0, skeleton=sk))
+    if stale:
+        # a missing node keeps stale coordinates in the file and is marked not visible (what the GUI stores for a hidden node):
+        # Instance.numpy() says NaN, it is exactly as missing as before
+        for inst, pose in zip(insts, pose_list):
+            for n, nd in enumerate(pose):
+                if not nd:
+                    inst.points["xy"][n] = (50.0 + 3 * n, 60.0 - 2 * n)
+                    inst.points["visible"][n] = False
     n_counted = len(insts)
     for pose in (extra_pred or []):
         insts.append(shim.predicted_instance(pose_np(pose), score=0.4, skeleton=sk))   # must be ignored (user_labels_only=True)
@@ -165,7 +173,7 @@ def build_frame(pose_list, frame_idx, n_nodes, scores=None, vid=None, as_pred=No
     return lf
 
 
-def build_labels(frames, n_nodes, two_videos=False, media=False):
+def build_labels(frames, n_nodes, two_videos=False, media=False, stale=False):
     """frames: list of dict(gt=[pose], pr=[pose], sc=[int], haspr=bool).  Returns
     (labels_gt, labels_pr, index) with index: id(instance) -> ('g'|'p', frame number 1-based, index 1-based)."""
     import sleap_io as sio
@@ -176,12 +184,12 @@ def build_labels(frames, n_nodes, two_videos=False, media=False):
     for f, fr in enumerate(frames):
         # two_videos: frames alternate between the two embedded videos and SHARE frame numbers (0, 0, 1, 1, ...)
         vid, fidx = (vids[f % 2], f // 2) if two_videos else (vids[0], f)
-        lf = build_frame(fr["gt"], fidx, n_nodes, vid=vid, as_pred=fr.get("gt_as_pred"), extra_pred=fr.get("gt_extra_pred"))
+        lf = build_frame(fr["gt"], fidx, n_nodes, vid=vid, as_pred=fr.get("gt_as_pred"), extra_pred=fr.get("gt_extra_pred"), stale=stale)
         for k, inst in enumerate(lf.instances[:_COUNTED.get(id(lf), len(lf.instances))]):
             index[id(inst)] = ("g", f + 1, k + 1)
         gl.append(lf)
         if fr["haspr"]:
-            lp = build_frame(fr["pr"], fidx, n_nodes, scores=fr["sc"], vid=vid)
+            lp = build_frame(fr["pr"], fidx, n_nodes, scores=fr["sc"], vid=vid, stale=stale)
             for k, inst in enumerate(lp.instances):
                 index[id(inst)] = ("p", f + 1, k + 1)
             pl.append(lp)
@@ -240,7 +248,7 @@ def observe_eval(case, opts=None):
     with warnings.catch_warnings():
         warnings.simplefilter("ignore")
         try:
-            lg, lp, index, keep = build_labels(frames, n_nodes, two_videos=bool(opts.get("two_videos")), media=bool(opts.get("media_video")))
+            lg, lp, index, keep = build_labels(frames, n_nodes, two_videos=bool(opts.get("two_videos")), media=bool(opts.get("media_video")), stale=bool(opts.get("stale_hidden")))
             ev = E.Evaluator(lg, lp, oks_stddev=stddev, oks_scale=scale, match_threshold=thr, user_labels_only=bool(opts.get("user_labels_only", True)))
             import copy
             m1 = copy.deepcopy(ev.evaluate())
